@@ -99,3 +99,20 @@ def get_obj(modname: str, qualname: str):
             part = f"_{obj.__name__}{part}"
         obj = getattr(obj, part)
     return obj
+
+
+_init_mod = None
+
+
+def import_init():
+    """ford/__init__.py executed as a separate module object (functions load_settings, parse_arguments, main ...) on top of the synthetic
+    package; its own imports (ford.output -> ford.graphs) run `dot -V` once."""
+    global _init_mod
+    if _init_mod is None:
+        import importlib.util
+        install_synthetic_package()
+        spec = importlib.util.spec_from_file_location("ford_init_real", os.path.join(REPO, "ford", "__init__.py"))
+        m = importlib.util.module_from_spec(spec)
+        spec.loader.exec_module(m)
+        _init_mod = m
+    return _init_mod
